@@ -33,10 +33,31 @@ type fault struct {
 	KindS  string    `json:"kind"`
 	Target int       `json:"target"`
 	Pos    int       `json:"pos"`
+	// Err selects the error VALUE of a fatal fault (index into fatalErrNames); 0 = the sentinel.
+	Err  int    `json:"-"`
+	ErrS string `json:"error,omitempty"`
 }
 
 func mkFault(k faultKind, target, pos int) fault {
 	return fault{Kind: k, KindS: k.String(), Target: target, Pos: pos}
+}
+
+// mkFatal is a fatal fault whose error value is fatalErrNames[errKind].
+func mkFatal(k faultKind, target, pos, errKind int) fault {
+	f := mkFault(k, target, pos)
+	f.Err = errKind
+	if errKind != 0 {
+		f.ErrS = fatalErrNames[errKind]
+	}
+	return f
+}
+
+// kindKey is the fault kind, qualified by the error value when it is not the sentinel.
+func (f fault) kindKey() string {
+	if f.Kind.fatal() && f.Err != 0 {
+		return f.KindS + "(" + fatalErrNames[f.Err] + ")"
+	}
+	return f.KindS
 }
 
 func faultsString(fs []fault) string {
@@ -45,7 +66,7 @@ func faultsString(fs []fault) string {
 		if i > 0 {
 			s += ","
 		}
-		s += fmt.Sprintf("%s[%d]@%d", f.KindS, f.Target, f.Pos)
+		s += fmt.Sprintf("%s[%d]@%d", f.kindKey(), f.Target, f.Pos)
 	}
 	if s == "" {
 		return "none"
@@ -53,11 +74,31 @@ func faultsString(fs []fault) string {
 	return s
 }
 
-// The injected fatal errors. Each scenario has at most one fatal fault.
+// The injected fatal errors. Each scenario has at most one fatal fault. Besides the sentinel, the
+// source / callback may fail ON ITS OWN ACCOUNT (every context of the consumer and of the library is
+// live) with error values a library is tempted to read as "my own shutdown" or "the normal end":
+// context.Canceled, an error wrapping it, context.DeadlineExceeded, and an error that wraps
+// stream.End without being it (the Stream contract says End is signalled by returning stream.End;
+// the library compares with ==). The oracle is the same for all: errors.Is(reported, E), never End.
 var (
 	errSrcFatal = errors.New("verif: injected fatal source error")
 	errCbFatal  = errors.New("verif: injected callback error")
+
+	fatalErrNames = [...]string{"sentinel", "context.Canceled", "wraps-context.Canceled", "context.DeadlineExceeded", "wraps-stream.End"}
+	srcFatalErrs  = [...]error{errSrcFatal, context.Canceled, fmt.Errorf("verif: upstream gave up: %w", context.Canceled),
+		context.DeadlineExceeded, fmt.Errorf("verif: upstream broke: %w", stream.End)}
+	cbFatalErrs = [...]error{errCbFatal, context.Canceled, fmt.Errorf("verif: callback gave up: %w", context.Canceled),
+		context.DeadlineExceeded, fmt.Errorf("verif: callback broke: %w", stream.End)}
 )
+
+const nFatalErrKinds = len(fatalErrNames)
+
+func fatalErrOf(f *fault) error {
+	if f.Kind == fkFatalCb {
+		return cbFatalErrs[f.Err]
+	}
+	return srcFatalErrs[f.Err]
+}
 
 // A context that expired long ago (ctx.Err() == context.DeadlineExceeded). Internal cancellations
 // of the library are context.Canceled, so the two can never be confused.
@@ -74,7 +115,7 @@ type srcInfo struct {
 	// trunc(p) = the global input that remains determined when this source fails after p items
 	// (for Merge: per part, see partsTrunc).
 	trunc        func(p int) []int
-	setFatal     func(p int)
+	setFatal     func(p int, E error)
 	setTransient func(call int)
 }
 
@@ -88,6 +129,7 @@ type env struct {
 
 	cbStage  int // stage whose callback fails (-1: none)
 	cbOrigin int
+	cbFatal  error
 
 	slow atomic.Bool // sources make the caller wait (until its context expires)
 
@@ -108,7 +150,7 @@ type env struct {
 }
 
 func newEnv(conc bool, pert *vkit.Perturber) *env {
-	return &env{conc: conc, pert: pert, cbStage: -1, cbOrigin: -1}
+	return &env{conc: conc, pert: pert, cbStage: -1, cbOrigin: -1, cbFatal: errCbFatal}
 }
 
 func (e *env) ev(actor, kind byte) {
@@ -154,6 +196,7 @@ type wsrc[T any] struct {
 
 func (w *wsrc[T]) Next(ctx context.Context) (T, error) {
 	w.e.pert.Do()
+	liveAtEntry := ctx.Err() == nil
 	x, err := w.p.Next(ctx)
 	switch {
 	case err == nil:
@@ -164,7 +207,10 @@ func (w *wsrc[T]) Next(ctx context.Context) (T, error) {
 	case err == stream.End:
 		w.e.ev('s'+w.id, 'N')
 	default:
-		w.e.noteInjected(err, err == errSrcFatal)
+		// The planned fatal failure (as opposed to the probe honouring a dead context, which may
+		// carry the same error value): the context was live and the fault position is reached.
+		fatal := liveAtEntry && w.p.FatalAt >= 0 && err == w.p.Fatal && w.p.Pos() >= w.p.FatalAt
+		w.e.noteInjected(err, fatal)
 		w.e.ev('s'+w.id, 'e')
 	}
 	w.e.pert.Do()
@@ -193,8 +239,9 @@ func newSrc[T any](e *env, name string, items []T, counts bool, trunc func(p int
 		name:   name,
 		nItems: len(items),
 		trunc:  trunc,
-		setFatal: func(at int) {
+		setFatal: func(at int, E error) {
 			p.FatalAt = at
+			p.Fatal = E
 		},
 		setTransient: func(call int) {
 			if p.TransientAt == nil {
@@ -212,8 +259,8 @@ func (e *env) cb(stage int, x int) error {
 	e.cbCalls.Add(1)
 	e.ev('c', byte('0'+stage))
 	if stage == e.cbStage && originOf(x) == e.cbOrigin {
-		e.noteInjected(errCbFatal, true)
-		return errCbFatal
+		e.noteInjected(e.cbFatal, true)
+		return e.cbFatal
 	}
 	return nil
 }
@@ -226,10 +273,10 @@ func (e *env) apply(fs []fault) (ctxPlan map[int]faultKind, fatal *fault) {
 		f := fs[i]
 		switch f.Kind {
 		case fkFatalSrc:
-			e.srcs[f.Target].setFatal(f.Pos)
+			e.srcs[f.Target].setFatal(f.Pos, srcFatalErrs[f.Err])
 			fatal = &fs[i]
 		case fkFatalCb:
-			e.cbStage, e.cbOrigin = f.Target, f.Pos
+			e.cbStage, e.cbOrigin, e.cbFatal = f.Target, f.Pos, cbFatalErrs[f.Err]
 			fatal = &fs[i]
 		case fkTransSrc:
 			e.srcs[f.Target].setTransient(f.Pos)
